@@ -26,9 +26,81 @@ def vobs_terms(case, trace):
     return emit.lst(out)
 
 
+_NAMES = None
+
+
+def names_tables():
+    """the strings the running harness prints for the model's codes (`harness names`)"""
+    global _NAMES
+    if _NAMES is None:
+        r = common.run([common.HARNESS_BIN, "names"], timeout=60, env=common.GOENV)
+        if r.returncode != 0:
+            raise RuntimeError("harness names failed: " + r.stderr[-500:])
+        _NAMES = json.loads(r.stdout)
+    return _NAMES
+
+
+def coq_str(s):
+    return '"' + s.replace('"', '""') + '"%string'
+
+
+def coq_tab(d):
+    return emit.lst([f"({int(k)}, {coq_str(v)})" for k, v in sorted(d.items(), key=lambda kv: int(kv[0]))])
+
+
+def names_defs():
+    """Coq definitions shared by all cases of a file: the type / name / group tables"""
+    n = names_tables()
+    return ["Require Import Coq.Strings.String.", "From Dig Require Import DotText.",
+            f"Definition ty_tab := {coq_tab(n['types'])}.", f"Definition nm_tab := {coq_tab(n['names'])}.",
+            f"Definition gr_tab := {coq_tab(n['groups'])}."]
+
+
+def names_term(case):
+    """DotText.names of a case: the shared tables and the location of each function (by its pool index)"""
+    pool = names_tables()["pool"]
+    fns = {f["id"]: pool[str(f["pool"])] for f in case["fns"] if f.get("pool") is not None}
+    return (f"(names_of_tables ty_tab nm_tab gr_tab {coq_tab({k: v['name'] for k, v in fns.items()})} "
+            f"{coq_tab({k: v['package'] for k, v in fns.items()})})")
+
+
+def tobs_defs(i, trace):
+    """per operation the recorded DOT texts; every distinct text of the case is one Coq string literal"""
+    lits = {}
+
+    def opt(t):
+        if not t or t == "PANIC":
+            return "None"
+        return f"(Some {lits.setdefault(t, f's{i}_{len(lits)}')})"
+    x = emit.lst([f"({opt(ot.get('dot'))}, {opt(ot.get('dot_err'))})" for ot in trace["ops"]])
+    return [f"Definition {n} := {coq_str(t)}." for t, n in lits.items()] + [f"Definition x{i} : list tobs := {x}."]
+
+
+def model_text(case, trace, oi, which):
+    """the text DotText.render gives for the model's graph after operation oi (which: 1 plain, 2 error graph)"""
+    pick = "g" if which == 1 else "match ge with Some g2 => g2 | None => g end"
+    defs = names_defs() + [
+        f"Definition MT := Eval vm_compute in match nth_error (model_viz c0) {oi} with "
+        f"Some (g, ge) => render {names_term(case)} ({pick}) | None => EmptyString end.", "Print MT."]
+    out = common.coq_eval(emit.cases_file([(case, trace)], extra="Spec Check Dot RunViz", defs=defs), timeout=600, name="viztext")
+    import re
+    m = re.search(r'^MT =\s*"(.*)"(%string)?\n\s*: string', out, re.S | re.M)
+    return m.group(1).replace('""', '"') if m else None
+
+
+def text_replay(prop, case, trace, oi, which):
+    ot = trace["ops"][oi]
+    return {"property": prop,
+            "obligation": "corr_C19_text: DotText.render of the model's graph is byte for byte the text Visualize writes",
+            "which": {1: "plain graph", 2: "graph marked with the Invoke's error"}.get(which),
+            "disagreeing_case": case, "operation": oi,
+            "implementation_text": ot.get("dot") if which == 1 else ot.get("dot_err"),
+            "model_text": model_text(case, trace, oi, which), "implementation_trace": trace}
+
+
 def run_viz(cases):
     cases, traces = common.run_impl_parallel(cases)
-    shard = 120
+    shard = 10     # the DOT texts are large Coq terms: many small files, compiled in parallel
     jobs = [(lo, cases[lo:lo + shard], traces[lo:lo + shard]) for lo in range(0, len(cases), shard)]
 
     def one(job):
@@ -40,23 +112,33 @@ def run_viz(cases):
         defs.append(f"Definition allv := {pairs}.")
         defs.append("Definition M := Eval vm_compute in vmism_from 0 allv.")
         defs.append("Definition V := Eval vm_compute in vviol_from 0 allv.")
-        defs += ["Print M.", "Print V."]
+        defs += ["Print M.", "Print V."] + names_defs()
+        for i, (c, t) in enumerate(zip(cs, ts)):
+            defs += tobs_defs(i, t)
+        triples = emit.lst([f"({names_term(c)}, c{i}, x{i})" for i, c in enumerate(cs)])
+        defs.append(f"Definition allt := {triples}.")
+        defs.append("Definition T := Eval vm_compute in tmism_from 0 allt.")
+        defs.append("Definition N := Eval vm_compute in tcount_from allt.")
+        defs += ["Print T.", "Print N."]
         src = emit.cases_file(list(zip(cs, ts)), extra="Spec Check Dot RunViz", defs=defs)
         out = common.coq_eval(src, timeout=3000, name="viz")
         M = [(lo + a, b, c) for a, b, c in common.parse_pairs(common.parse_printed(out, "M"))]
         V = [(lo + a, b, c) for a, b, c in common.parse_pairs(common.parse_printed(out, "V"))]
-        return M, V
+        T = [(lo + a, b, c) for a, b, c in common.parse_pairs(common.parse_printed(out, "T"))]
+        return M, V, T, int(common.parse_printed(out, "N"))
     from concurrent.futures import ThreadPoolExecutor
     with ThreadPoolExecutor(max_workers=16) as ex:
         res = list(ex.map(one, jobs))
-    return cases, traces, [m for r in res for m in r[0]], [v for r in res for v in r[1]]
+    return (cases, traces, [m for r in res for m in r[0]], [v for r in res for v in r[1]],
+            [t for r in res for t in r[2]], sum(r[3] for r in res))
 
 
 def check(tier, seed, corpus):
     n = 150 if tier == "quick" else 4000
     cases = list(corpus) + gen.generate_viz(seed, n)
-    cases, traces, M, V = run_viz(cases)
+    cases, traces, M, V, T, ntexts = run_viz(cases)
     dist = dict(viz_cases=len(cases), dot_texts=sum(1 for t in traces for o in t["ops"] if o.get("dot")),
                 error_graphs=sum(1 for t in traces for o in t["ops"] if o.get("dot_err")),
                 clusters_seen=sum(o.get("dot", "").count("subgraph cluster_") for t in traces for o in t["ops"][-1:]))
-    return cases, traces, M, V, dist
+    dist.update(texts_compared_exactly=ntexts, text_mismatches=len(T))
+    return cases, traces, M, V, T, dist
